@@ -99,11 +99,11 @@ func genParamLen(t *rapid.T) int {
 	case 3:
 		return rapid.IntRange(51, 200).Draw(t, "pl")
 	case 4:
-		return rapid.IntRange(201, 470).Draw(t, "pl")
+		return rapid.IntRange(201, 469).Draw(t, "pl")
 	case 5, 6:
-		return rapid.IntRange(471, 1000).Draw(t, "pl")
+		return rapid.IntRange(470, 1000).Draw(t, "pl")
 	case 7:
-		return rapid.SampledFrom([]int{190, 200, 210, 214, 215, 216, 220, 440, 465, 470, 471, 475, 480, 3990, 4000}).Draw(t, "pl")
+		return rapid.SampledFrom([]int{199, 200, 201, 213, 214, 215, 468, 469, 470, 471, 980, 981, 3990, 3999, 4000}).Draw(t, "pl")
 	default:
 		return rapid.IntRange(1001, 4000).Draw(t, "pl")
 	}
@@ -268,6 +268,21 @@ func (w *pushWorld) pending() []int {
 	return out
 }
 
+func describe(ms []rtmpref.Msg) string {
+	var sb strings.Builder
+	if len(ms) > 6 {
+		ms = ms[len(ms)-6:]
+	}
+	for _, m := range ms {
+		p := m.Payload
+		if len(p) > 10 {
+			p = p[:10]
+		}
+		fmt.Fprintf(&sb, "{type %d ts %d len %d % x} ", m.TypeID, m.Ts, len(m.Payload), p)
+	}
+	return sb.String()
+}
+
 func hasMarker(ms []rtmpref.Msg, mk []byte) int {
 	for i, m := range ms {
 		if bytes.Equal(m.Payload, mk) {
@@ -296,6 +311,7 @@ func runPush(c PushCase) *pbt.Violation {
 	_, sps, pps := gen.ParamSets("avc", 0)
 	vsh := append([]byte{0x17, 0, 0, 0, 0}, gen.AvcSeqHeaderBody(sps, pps)...)
 	ash := append([]byte{0xAF, 0}, gen.Asc(2, 4, 2)...)
+	filler := append([]byte{0xAF, 1}, gen.Bytes(17, 5000)...)
 
 	for pi, ps := range c.Pubs {
 		wantName := w.name
@@ -382,6 +398,23 @@ func runPush(c PushCase) *pbt.Violation {
 			for i := 0; i < ps.Ticks; i++ {
 				w.doTick()
 			}
+			// lal's push goroutine attaches a session to the stream shortly after the target's publish answer; lal's own
+			// count of out sessions tells when that has happened (and must equal the number of answered targets)
+			nEst := 0
+			for _, t := range w.targets {
+				if t.established {
+					nEst++
+				}
+			}
+			if g := s.SM.GetGroup("", w.name); g != nil {
+				deadline = time.Now().Add(longWait)
+				for g.OutSessionNum() != nEst {
+					if time.Now().After(deadline) {
+						return pbt.V("push/session-count-differs", "publisher %d: %d of %d targets answered publish, but %v later lal counts %d push sessions on the stream", pi, nEst, len(w.targets), longWait, g.OutSessionNum())
+					}
+					time.Sleep(300 * time.Microsecond)
+				}
+			}
 			// ---- light content check: headers + a marker reach every established target ---------------------
 			if pub != nil {
 				deadline = time.Now().Add(longWait)
@@ -391,22 +424,36 @@ func runPush(c PushCase) *pbt.Violation {
 					}
 					// lal's push goroutine attaches the session shortly after the publish answer: markers are
 					// published until one comes through
+					var sent [][]byte
+					found := func() []byte {
+						ms := t.live.MediaSnapshot()
+						for _, m := range sent {
+							if hasMarker(ms, m) >= 0 {
+								return m
+							}
+						}
+						return nil
+					}
 					var mk []byte
-					for {
+					for mk == nil {
 						if time.Now().After(deadline) {
-							return pbt.V("push/media-not-forwarded", "publisher %d: target %d is established but no marker sent by the publisher arrived within %v (%d media messages received)", pi, ti, longWait, len(t.live.MediaSnapshot()))
+							return pbt.V("push/media-not-forwarded", "publisher %d: target %d is established but none of the %d markers sent by the publisher arrived within %v (%d media messages received; last: %s)", pi, ti, len(sent), longWait, len(t.live.MediaSnapshot()), describe(t.live.MediaSnapshot()))
 						}
 						w.marker++
-						mk = []byte{0xAF, 1, 0xC1, 0x17, byte(w.marker >> 16), byte(w.marker >> 8), byte(w.marker), 0x55}
-						if err := pub.Send(gen.TypeAudio, w.marker, mk, 0); err != nil {
+						m := []byte{0xAF, 1, 0xC1, 0x17, byte(w.marker >> 16), byte(w.marker >> 8), byte(w.marker), 0x55}
+						sent = append(sent, m)
+						if err := pub.Send(gen.TypeAudio, w.marker, m, 0); err != nil {
+							return pbt.V("push/publisher-disconnected", "publisher %d was disconnected while pushing: %v", pi, err)
+						}
+						// lal's push sessions write through a 4 KiB buffer that only a later write flushes
+						if err := pub.Send(gen.TypeAudio, w.marker, filler, 0); err != nil {
 							return pbt.V("push/publisher-disconnected", "publisher %d was disconnected while pushing: %v", pi, err)
 						}
 						pub.WaitIdle()
-						for k := 0; k < 40 && hasMarker(t.live.MediaSnapshot(), mk) < 0; k++ {
-							time.Sleep(500 * time.Microsecond)
-						}
-						if hasMarker(t.live.MediaSnapshot(), mk) >= 0 {
-							break
+						for k := 0; k < 100 && mk == nil; k++ {
+							if mk = found(); mk == nil {
+								time.Sleep(time.Millisecond)
+							}
 						}
 					}
 					ms := t.live.MediaSnapshot()
@@ -507,10 +554,10 @@ func paramClass(n int) string {
 		return "0"
 	case n <= 200:
 		return "1-200"
-	case n <= 470:
-		return "201-470"
+	case n <= 469:
+		return "201-469"
 	case n <= 1000:
-		return "471-1000"
+		return "470-1000"
 	default:
 		return "1001-4000"
 	}
@@ -616,24 +663,69 @@ func genPullCase(t *rapid.T) PullCase {
 	for i := 0; i < no; i++ {
 		c.Outcomes = append(c.Outcomes, rapid.SampledFrom([]int{ocRefuse, ocRefuse, ocRefuse, ocStall, ocLateClose, ocPlay, ocPlay, ocPlay, ocPlayClose, ocPlayClose}).Draw(t, "outcome"))
 	}
-	maxActs := 12
+	maxActs := 14
 	if pbt.Thorough() {
 		maxActs = 18
 	}
-	kinds := []string{"sub", "sub", "sub", "leave", "leave", "stop", "stop", "kick", "tick", "tick", "tick", "tick", "proceed", "proceed", "proceed", "pub", "unpub"}
-	if !c.Static {
-		kinds = append(kinds, "start", "start", "start")
-	}
-	if c.AutoStop > 0 {
-		kinds = append(kinds, "sleep", "sleep", "sleep")
-	}
-	n := rapid.IntRange(3, maxActs).Draw(t, "nacts")
-	if !c.Static {
-		// an API-mode history without any start explores nothing
-		c.Acts = append(c.Acts, Act{K: rapid.SampledFrom([]string{"start", "start", "sub", "tick"}).Draw(t, "first")})
-	}
+	n := rapid.IntRange(4, maxActs).Draw(t, "nacts")
+	// the next action is drawn with weights that depend on the state the reference machine is in, so that histories
+	// reach the interesting states by construction (an answer released while something else happened, a kick of an
+	// attached session, a tick after a failure ...)
+	sm := newSim(&c)
 	for len(c.Acts) < n {
-		c.Acts = append(c.Acts, Act{K: rapid.SampledFrom(kinds).Draw(t, "kind"), S: rapid.IntRange(0, 5).Draw(t, "sel")})
+		m := &sm.m
+		wt := map[string]int{"sub": 2, "tick": 2, "stop": 1, "kick": 1, "pub": 1}
+		if m.subs > 0 {
+			wt["leave"] = 1
+		}
+		if m.pub {
+			wt["unpub"] = 3
+		}
+		if !c.Static {
+			wt["start"] = 2
+			if !m.apiEnabled {
+				wt["start"] += 4
+			}
+		}
+		if c.AutoStop > 0 {
+			wt["sleep"] = 2
+		}
+		switch {
+		case m.inflight:
+			wt["proceed"] = 10
+			wt["pub"] += 2
+			wt["stop"] += 2
+			wt["tick"]++
+		case m.attached:
+			wt["kick"] += 4
+			wt["stop"] += 3
+			wt["sub"] = 1
+			wt["start"] = 1
+			if m.subs > 0 {
+				wt["leave"] += 6
+				wt["tick"] += 2
+			} else {
+				wt["tick"] += 8
+				if c.AutoStop > 0 {
+					wt["sleep"] += 6
+				}
+			}
+		case m.enabled():
+			wt["sub"] += 2
+			wt["tick"] += 3
+		}
+		if sm.failed {
+			wt["tick"] += 3
+		}
+		var kinds []string
+		for _, k := range []string{"sub", "leave", "tick", "start", "stop", "kick", "pub", "unpub", "sleep", "proceed"} {
+			for i := 0; i < wt[k]; i++ {
+				kinds = append(kinds, k)
+			}
+		}
+		a := Act{K: rapid.SampledFrom(kinds).Draw(t, "kind"), S: rapid.IntRange(0, 5).Draw(t, "sel")}
+		c.Acts = append(c.Acts, a)
+		sm.apply(a)
 	}
 	return c
 }
@@ -660,8 +752,8 @@ func (m *pm) want(expired bool) bool {
 	return m.enabled() && !m.pub && !m.attached && !m.inflight && !expired && (m.budget < 0 || m.used <= m.budget)
 }
 
-func (m *pm) attempt()    { m.inflight = true; m.used++ }
-func (m *pm) stopReset()  { m.used = 0 }
+func (m *pm) attempt()        { m.inflight = true; m.used++ }
+func (m *pm) stopReset()      { m.used = 0 }
 func (m *pm) mayAttach() bool { return m.enabled() && !m.pub && !m.attached }
 
 // ---- API access: direct calls or lal's HTTP-API ---------------------------------------------------------
@@ -1222,18 +1314,15 @@ func (w *pullWorld) doAct(a Act) *pbt.Violation {
 			return pbt.V("api/stop-wrong-answer", "%s: stop_relay_pull without an attached pull session answered %d (session %q), want %d", w.step, code, id, base.ErrorCodeSessionNotFound)
 		}
 	case "kick":
-		var ids []string
-		if w.attached != nil {
-			ids = append(ids, w.attached.id, w.attached.id) // the interesting target twice as likely
+		id := "RTMPPULL99999"
+		switch kickTarget(a.S, w.attached != nil, w.inflight != nil && w.inflight.apiID != "", len(w.staleIDs) > 0) {
+		case "attached":
+			id = w.attached.id
+		case "inflight":
+			id = w.inflight.apiID
+		case "stale":
+			id = w.staleIDs[len(w.staleIDs)-1]
 		}
-		if w.inflight != nil && w.inflight.apiID != "" {
-			ids = append(ids, w.inflight.apiID)
-		}
-		if len(w.staleIDs) > 0 {
-			ids = append(ids, w.staleIDs[len(w.staleIDs)-1])
-		}
-		ids = append(ids, "RTMPPULL99999")
-		id := ids[a.S%len(ids)]
 		code := w.api.kick(w.name, id)
 		if v := s.PanicViolation(); v != nil {
 			return v
@@ -1369,192 +1458,252 @@ func runPull(c PullCase) *pbt.Violation {
 
 // ---- classification: an abstract run of the reference machine with a virtual clock ------------------------
 
-func classifyPull(c PullCase) (bool, []string) {
-	labels := []string{"pull"}
-	if c.Static {
-		labels = append(labels, "mode:static")
-	} else {
-		labels = append(labels, "mode:api")
+// sim runs the reference machine over a case without lal and without a real clock (sleeps advance a virtual one);
+// it labels the case and tells the generator which state the history has reached.
+type sim struct {
+	c               *PullCase
+	m               pm
+	clock, lastSeen int // virtual ms
+	outIdx          int
+	inflightOutcome int
+	inflightByAPI   bool
+	ended           int  // attempts / sessions that are over (their ids are stale)
+	failed          bool // an attempt has failed and no tick has happened since
+	nt              bool
+	labels          []string
+	seq             []string
+}
+
+func newSim(c *PullCase) *sim {
+	return &sim{c: c, m: pm{static: c.Static, budget: c.Budget, autoStop: c.AutoStop}}
+}
+
+func (s *sim) label(l string) { s.labels = append(s.labels, l) }
+
+func (s *sim) expired() bool {
+	if s.m.autoStop < 0 || s.m.subs > 0 {
+		return false
 	}
-	if c.Http {
-		labels = append(labels, "api-over-http")
+	return s.m.autoStop == 0 || s.clock-s.lastSeen >= s.m.autoStop
+}
+
+func (s *sim) create() {
+	if !s.m.exists {
+		s.m.exists = true
+		s.lastSeen = s.clock
 	}
-	switch {
-	case c.Budget < 0:
-		labels = append(labels, "budget:forever")
-	case c.Budget == 0:
-		labels = append(labels, "budget:never")
+}
+
+func (s *sim) attempt(byAPI bool) {
+	s.m.attempt()
+	o := s.c.Outcomes[s.outIdx%len(s.c.Outcomes)]
+	s.outIdx++
+	s.label("outcome:" + ocNames[o])
+	if len(s.seq) < 2 {
+		s.seq = append(s.seq, ocNames[o])
+	}
+	if o == ocRefuse {
+		s.m.inflight = false
+		s.failed = true
+		s.ended++
+		return
+	}
+	s.inflightOutcome, s.inflightByAPI = o, byAPI
+}
+
+func (s *sim) resolve() {
+	if !s.m.inflight {
+		return
+	}
+	s.m.inflight = false
+	switch s.inflightOutcome {
+	case ocStall, ocLateClose:
+		s.failed = true
+		s.ended++
 	default:
-		labels = append(labels, "budget:n")
-	}
-	switch {
-	case c.AutoStop < 0:
-		labels = append(labels, "auto-stop:never")
-	case c.AutoStop == 0:
-		labels = append(labels, "auto-stop:immediately")
-	default:
-		labels = append(labels, "auto-stop:after-t")
-	}
-	m := pm{static: c.Static, budget: c.Budget, autoStop: c.AutoStop}
-	var clock, lastSeen int // virtual ms
-	outIdx := 0
-	inflightOutcome := -1
-	var seq []string
-	failed, nt := false, false
-	expired := func() bool {
-		if m.autoStop < 0 || m.subs > 0 {
-			return false
-		}
-		return m.autoStop == 0 || clock-lastSeen >= m.autoStop
-	}
-	create := func() {
-		if !m.exists {
-			m.exists = true
-			lastSeen = clock
-		}
-	}
-	attempt := func() {
-		m.attempt()
-		o := c.Outcomes[outIdx%len(c.Outcomes)]
-		outIdx++
-		if len(seq) < 4 {
-			seq = append(seq, ocNames[o])
-		}
-		if o == ocRefuse {
-			m.inflight = false
-			failed = true
-			return
-		}
-		inflightOutcome = o
-	}
-	resolve := func() {
-		if !m.inflight {
-			return
-		}
-		m.inflight = false
-		switch inflightOutcome {
-		case ocStall, ocLateClose:
-			failed = true
+		switch {
+		case s.m.pub:
+			s.label("publisher-overtakes-pull")
+			s.nt = true
+			s.ended++
+		case !s.m.enabled():
+			s.label("answer-after-api-stop")
+			s.ended++
+		case s.inflightOutcome == ocPlayClose:
+			s.label("origin-closes-attached-pull")
+			s.failed = true
+			s.ended++
 		default:
-			if m.pub {
-				labels = append(labels, "publisher-overtakes-pull")
-				nt = true
-			} else if !m.enabled() {
-				labels = append(labels, "answer-after-api-stop")
-			} else {
-				m.attached = inflightOutcome == ocPlay
-				if inflightOutcome == ocPlayClose {
-					labels = append(labels, "origin-closes-attached-pull")
-					failed = true
-				}
-			}
+			s.m.attached = true
+			s.label("pull-attached")
 		}
 	}
-	for _, a := range c.Acts {
-		switch a.K {
-		case "sub":
-			create()
-			m.subs++
-			if m.want(false) {
-				attempt()
-				labels = append(labels, "attempt-on-subscriber")
+}
+
+// kickTarget: which id the kick action addresses (the run uses the same rule).
+func kickTarget(sel int, attached, inflightByAPI, stale bool) string {
+	var ids []string
+	if attached {
+		ids = append(ids, "attached", "attached")
+	}
+	if inflightByAPI {
+		ids = append(ids, "inflight")
+	}
+	if stale {
+		ids = append(ids, "stale")
+	}
+	ids = append(ids, "unknown")
+	return ids[sel%len(ids)]
+}
+
+func (s *sim) apply(a Act) {
+	m := &s.m
+	switch a.K {
+	case "sub":
+		s.create()
+		m.subs++
+		if m.want(false) {
+			s.attempt(false)
+			s.label("attempt-on-subscriber")
+		}
+	case "leave":
+		if m.subs > 0 {
+			m.subs--
+		}
+	case "pub":
+		s.create()
+		if !m.pub && !m.attached {
+			m.pub = true
+			if m.inflight {
+				s.label("publisher-while-pull-in-flight")
 			}
-		case "leave":
-			if m.subs > 0 {
-				m.subs--
-			}
-		case "pub":
-			create()
-			if !m.pub && !m.attached {
-				m.pub = true
-				if m.inflight {
-					labels = append(labels, "publisher-while-pull-in-flight")
-				}
-			}
-		case "unpub":
-			m.pub = false
-		case "sleep":
-			if c.AutoStop > 0 {
-				if a.S%3 == 0 {
-					clock += c.AutoStop / 5
-				} else {
-					clock += c.AutoStop + 20
-				}
-			}
-		case "tick":
-			if !m.exists {
-				continue
-			}
-			if failed {
-				labels = append(labels, "failed-attempt-then-tick")
-				nt = true
-			}
-			if m.subs > 0 {
-				lastSeen = clock
-			}
-			if expired() {
-				m.stopReset()
-				if m.attached {
-					m.attached = false
-					labels = append(labels, "auto-stop-closes-pull")
-				}
-			} else if m.want(false) {
-				attempt()
-				labels = append(labels, "attempt-on-tick")
-			} else if m.enabled() && !m.pub && !m.attached && !m.inflight && m.budget >= 0 && m.used > m.budget {
-				labels = append(labels, "budget-exhausted-at-tick")
-			}
-		case "start":
-			if m.static {
-				continue
-			}
-			if m.apiEnabled && !m.inflight && !m.attached && !m.pub && m.budget >= 0 && m.used > m.budget {
-				continue
-			}
-			create()
-			m.apiEnabled = true
-			if m.want(expired()) {
-				attempt()
-				labels = append(labels, "attempt-on-api-start")
+		}
+	case "unpub":
+		m.pub = false
+	case "sleep":
+		if s.c.AutoStop > 0 {
+			if a.S%3 == 0 {
+				s.clock += s.c.AutoStop / 5
 			} else {
-				labels = append(labels, "api-start-refused")
+				s.clock += s.c.AutoStop + 20
 			}
-		case "stop":
-			if !m.exists {
-				continue
-			}
-			m.apiEnabled = false
+		}
+	case "tick":
+		if !m.exists {
+			return
+		}
+		if s.failed {
+			s.label("failed-attempt-then-tick")
+			s.nt = true
+			s.failed = false
+		}
+		if m.subs > 0 {
+			s.lastSeen = s.clock
+		}
+		switch {
+		case s.expired():
 			m.stopReset()
 			if m.attached {
 				m.attached = false
-				labels = append(labels, "api-stop-closes-pull")
+				s.ended++
+				s.label("auto-stop-closes-pull")
+			} else if m.enabled() {
+				s.label("auto-stop-blocks-attempt")
 			}
-			if m.inflight {
-				labels = append(labels, "api-stop-while-in-flight")
-			}
-		case "kick":
-			if m.exists && m.attached && a.S%3 < 2 { // approximation of the id choice
-				m.attached = false
-				m.apiEnabled = false
-				m.stopReset()
-				labels = append(labels, "kick-closes-pull")
-			}
-		case "proceed":
-			resolve()
+		case m.want(false):
+			s.attempt(false)
+			s.label("attempt-on-tick")
+		case m.enabled() && !m.pub && !m.attached && !m.inflight && m.budget >= 0 && m.used > m.budget:
+			s.label("budget-exhausted-at-tick")
 		}
+	case "start":
+		if m.static {
+			return
+		}
+		if m.apiEnabled && !m.inflight && !m.attached && !m.pub && m.budget >= 0 && m.used > m.budget {
+			return
+		}
+		s.create()
+		m.apiEnabled = true
+		if m.want(s.expired()) {
+			s.attempt(true)
+			s.label("attempt-on-api-start")
+		} else {
+			s.label("api-start-refused")
+		}
+	case "stop":
+		if !m.exists {
+			return
+		}
+		m.apiEnabled = false
+		m.stopReset()
+		if m.attached {
+			m.attached = false
+			s.ended++
+			s.label("api-stop-closes-pull")
+		}
+		if m.inflight {
+			s.label("api-stop-while-in-flight")
+		}
+	case "kick":
+		if !m.exists {
+			return
+		}
+		tg := kickTarget(a.S, m.attached, m.inflight && s.inflightByAPI, s.ended > 0)
+		s.label("kick:" + tg)
+		if tg == "attached" {
+			m.attached = false
+			m.apiEnabled = false
+			m.stopReset()
+			s.ended++
+		}
+	case "proceed":
+		s.resolve()
 	}
-	if len(seq) > 0 {
-		labels = append(labels, "outcomes:"+strings.Join(seq, ","))
+}
+
+func classifyPull(c PullCase) (bool, []string) {
+	s := newSim(&c)
+	s.label("pull")
+	if c.Static {
+		s.label("mode:static")
 	} else {
-		labels = append(labels, "outcomes:none")
+		s.label("mode:api")
 	}
-	return nt, uniq(labels)
+	if c.Http {
+		s.label("api-over-http")
+	}
+	switch {
+	case c.Budget < 0:
+		s.label("budget:forever")
+	case c.Budget == 0:
+		s.label("budget:never")
+	default:
+		s.label("budget:n")
+	}
+	switch {
+	case c.AutoStop < 0:
+		s.label("auto-stop:never")
+	case c.AutoStop == 0:
+		s.label("auto-stop:immediately")
+	default:
+		s.label("auto-stop:after-t")
+	}
+	for _, a := range c.Acts {
+		s.apply(a)
+	}
+	if len(s.seq) > 0 {
+		s.label("outcome-seq:" + strings.Join(s.seq, ","))
+	} else {
+		s.label("outcome-seq:none")
+	}
+	return s.nt, uniq(s.labels)
 }
 
 // TestPullRules is the last test of the file: pbt counters are process-global.
 func TestPullRules(t *testing.T) {
 	pbt.Run(t, pbt.Spec[PullCase]{
 		ID: "C17", Name: "pull-rules", Gen: genPullCase, Run: runPull, Classify: classifyPull,
-		Quick: 110, Thorough: 1100, Isolate: true,
+		Quick: 300, Thorough: 2500, Isolate: true,
 	})
 }
